@@ -104,7 +104,8 @@ func seededPV(label string) mock.PV {
 type ChainOpts struct {
 	ChainID     string
 	Accts       []Acct
-	Balance     int64 // initial "stake" balance of every account
+	Balance     int64            // initial "stake" balance of every account
+	Balances    map[string]int64 // per-account override of the initial "stake" balance
 	Coins       map[string]sdk.Coins
 	Mutate      func(a *app.Teleport, gs simapp.GenesisState)
 	NoCommit    bool
@@ -135,7 +136,11 @@ func NewChain(o ChainOpts) *Chain {
 	total := sdk.NewCoins()
 	for i, ac := range o.Accts {
 		genAccs = append(genAccs, authtypes.NewBaseAccount(ac.Acc, ac.Priv.PubKey(), uint64(i), 0))
-		coins := sdk.NewCoins(sdk.NewCoin(sdk.DefaultBondDenom, sdk.NewInt(o.Balance)))
+		bal := o.Balance
+		if b, ok := o.Balances[ac.Name]; ok {
+			bal = b
+		}
+		coins := sdk.NewCoins(sdk.NewCoin(sdk.DefaultBondDenom, sdk.NewInt(bal)))
 		if extra, ok := o.Coins[ac.Name]; ok {
 			coins = coins.Add(extra...)
 		}
@@ -151,12 +156,12 @@ func NewChain(o ChainOpts) *Chain {
 	must(err)
 	validator := stakingtypes.Validator{
 		OperatorAddress: sdk.ValAddress(val.Address).String(), ConsensusPubkey: pkAny,
-		Status: stakingtypes.Bonded, Tokens: bondAmt, DelegatorShares: sdk.OneDec(),
+		Status: stakingtypes.Bonded, Tokens: bondAmt, DelegatorShares: bondAmt.ToDec(),
 		UnbondingTime:     time.Unix(0, 0).UTC(),
 		Commission:        stakingtypes.NewCommission(sdk.ZeroDec(), sdk.ZeroDec(), sdk.ZeroDec()),
 		MinSelfDelegation: sdk.ZeroInt(),
 	}
-	deleg := stakingtypes.NewDelegation(o.Accts[0].Acc, val.Address.Bytes(), sdk.OneDec())
+	deleg := stakingtypes.NewDelegation(o.Accts[0].Acc, val.Address.Bytes(), bondAmt.ToDec())
 	gs[stakingtypes.ModuleName] = a.AppCodec().MustMarshalJSON(stakingtypes.NewGenesisState(stakingtypes.DefaultParams(), []stakingtypes.Validator{validator}, []stakingtypes.Delegation{deleg}))
 
 	evmGen := evmtypes.DefaultGenesisState()
